@@ -4,4 +4,5 @@ p=$1; shift
 git -C /repo apply $p || { echo "APPLY FAILED"; exit 2; }
 for id in "$@"; do /verif/bin/verif check $id --tier quick 2>&1 | grep -E "VIOLATION|KNOWN|^\[" ; done
 git -C /repo checkout -- .
+for id in "$@"; do git -C /verif checkout -- evidence/$id.json; done
 /verif/bin/verif regen >/dev/null
